@@ -15,6 +15,12 @@ MUTANTS = [
     ('ground positions before segmentation', [(M + '__init__', "        self.geo.compute_segments ()\n        self.geo.compute_ground ()", "        self.geo.compute_ground ()\n        self.geo.compute_segments ()")], ['positions-after-sort']),
     ('end index prediction ignores grounded first end', [('mininec.Geobj.compute_connections', "npulse = self.n_segments - (not self.idx_1) - (not self.idx_2)", "npulse = self.n_segments - (not self.conn [0].list) - (not self.idx_2)")], ['COUNT']),
 ]
+MUTANTS += [
+    ('automatic tag counter not advanced', [('mininec.Geo_Container.compute_tags', "                max_tag += 1\n                geobj.tag = max_tag\n", "                geobj.tag = max_tag + 1\n")], ['automatic']),
+    ('by_tag keyed by position', [('mininec.Geo_Container.compute_tags', "            self.by_tag [geobj.tag] = geobj", "            self.by_tag [n + 1] = geobj")], ['by_tag']),
+    ('sorted descending', [('mininec.Geo_Container.compute_tags', "self.geo.sort (key = lambda geobj: geobj.tag)", "self.geo.sort (key = lambda geobj: geobj.tag, reverse = True)")], ['sorted']),
+    ('zero tag accepted', [('mininec.Geo_Container.compute_tags', "                if geobj.tag <= 0:", "                if geobj.tag < 0:")], ['validation']),
+]
 REFACTORS = [
     ('tag lookup via membership then index', [(M + 'register_source', "            w = self.geo.by_tag.get (geo_tag)\n            if not w:", "            w = None\n            if geo_tag in self.geo.by_tag:\n                w = self.geo.by_tag [geo_tag]\n            if not w:")]),
 ]
